@@ -193,7 +193,11 @@ def _segments(segs, base=0):
 
 
 TAILS = ["x", "other/x", "other/secret", "root-old/x", "rootx", "root", "root/../rootx", "srv/other/x", ".git/config",
-         "a.ics", "x/"]
+         "a.ics", "x/",
+         # ONE segment that only looks like dots and slashes: fullwidth full stop / solidus, two-dot leader - ordinary
+         # name characters for every path check, '.' and '/' after a Unicode compatibility normalisation
+         "\uff0e\uff0e\uff0f\uff0e\uff0e\uff0f\uff0e\uff0e\uff0f\uff0e\uff0e\uff0fother\uff0fy.vcf",
+         "\u2025\uff0f\u2025\uff0f\u2025\uff0f\u2025\uff0fother\uff0fsecret"]
 
 
 def body_climb(base, ups, tail, lead):
@@ -340,11 +344,14 @@ def _raw_targets(chunk):
         for n in (1, 2):
             for segs in itertools.product(SEGS, repeat=n):
                 T.append(c + "/" + "/".join(segs))
-    T += [c + "/" + "../" * k + tail for c in CONTAINERS for k in range(1, 7) for tail in TAILS]
+    T += [c + "/" + "../" * k + tail for c in CONTAINERS for k in range(0, 7) for tail in TAILS]
     T += [c + "/" + "../" * k + "other/repo/secret.ics" for c in CONTAINERS for k in range(1, 7)]
     T += ["/dav" + c + "/" + "../" * k + "other/repo/secret.ics" for c in CONTAINERS[:2] for k in range(1, 5)]
     T += ["/user/calendars/cal/%2e%2e/%2e%2e/%2e%2e/%2e%2e/other/secret", "/..%2f..%2fother%2fsecret", "//../other/secret",
           "/%2e%2e/other/secret", "/user/calendars/cal/..%2f..%2f..%2f..%2fother%2fsecret"]
+    # a request line is ASCII: anything else goes percent-encoded (UTF-8), as a client sends it
+    import urllib.parse
+    T = ["".join(ch if ord(ch) < 128 else urllib.parse.quote(ch) for ch in t) for t in T]
     return T[chunk::2]
 
 
